@@ -39,7 +39,14 @@ RULE = ("8 base scenarios (forward/reversed x single/multi-file forcing x discre
         "instance_variables removed, configuration file missing / not YAML / wrong "
         "version, subgrid with i0 >= i1, j0 >= j1, beyond the grid, 0, negative beyond the grid, legal negative; "
         "plus random pairs of injections (2 per base scenario in quick; thorough: 3 rounds of base scenarios and 40 "
-        "pairs each) and the regression set-ups of corpus/C20.  Each case runs ladim.main.main; compared with the Coq model: refused/started, "
+        "pairs each) and the regression set-ups of corpus/C20; first of all a fixed family at scale (c20_scale.py, "
+        "not drawn at random): series of 13 to 1025 forcing files (well-formed with the window early / in the middle / "
+        "late; names whose order is not the order in time: unpadded or too narrowly padded numbers; one swap, "
+        "duplicate, exchanged or stale file anywhere in the series, far from or next to the window), files of 125 / 1500 "
+        "frames with a fault deep inside, windows of 3000 to 5000 steps with 1440 steps between frames and forcing "
+        "one step short at either end, release tables of 4096 to 10000 rows (all outside the window, only the last "
+        "inside, the last without position); those with an encoding of more than 400 integers are decided by the "
+        "oracle alone.  Each case runs ladim.main.main; compared with the Coq model: refused/started, "
         "the refusing constructor, number of update() calls, number of records.  Non-trivial = distinct (scenario, "
         "fault list) with at least one fault or a tight valid neighbour.")
 TRUSTED = ["Coq 8.16.1 kernel + vm_compute", "hand-written model coq/Model/Startup.v (reusing Model/Time.v tk_init and "
@@ -60,6 +67,7 @@ NAME2STAGE = {"state": 1, "time": 2, "grid": 3, "forcing": 4, "release": 5, "tra
 SEC = {"missing": 0, "null": 1, "present": 2}
 REF_SHIFTS = [0, -86400, 43200, 1800]
 _SLOT = 0
+SCALE_COQ_MAX = 400  # scale cases whose encoding is longer than this are oracle-only (ints = None)
 CF = {"ok": 0, "missing": 1, "badsyntax": 2, "badversion": 3}
 
 
@@ -82,7 +90,12 @@ def realize(desc, d: Path):
     fdir.mkdir(parents=True, exist_ok=True)
     for old in fdir.glob("*.nc"):
         old.unlink()
-    for k, times in enumerate(desc["files"]):
+    if desc.get("scale"):
+        # long series: hard links into a pool of files (see c20_scale), under the names the description gives
+        import c20_scale
+
+        c20_scale.link_forcing(desc, fdir)
+    for k, times in enumerate([] if desc.get("scale") else desc["files"]):
         # every file has its own time reference (as files produced by different model runs have)
         rf.write_roms(fdir / f"ocean_{k:03d}.nc", imax=imax, jmax=jmax, N=2, times=times, u=0.0, v=0.0,
                       time_ref_shift=REF_SHIFTS[k % len(REF_SHIFTS)],
@@ -421,7 +434,15 @@ def eval_case(desc, ctx):
         nt = repr((base, label, desc["start"], desc["stop"], desc["dt"], desc["files"], desc["rel_times"]))
     kind = ("refused-" + (STAGES[obs["stage"]] if obs["stage"] >= 0 else "unknown")) if obs["exception"] and not obs["updates"] \
         else ("ran" if not obs["exception"] else "died-in-loop")
-    res = {"ints": encode(desc, obs), "oracle": msg, "nontrivial": nt, "kind": kind,
+    ints = encode(desc, obs)
+    if desc.get("scale"):
+        if msg:
+            msg = "scale case [" + ", ".join(label[1:]) + "]: " + msg
+        if len(ints) > SCALE_COQ_MAX:
+            ints = None  # too large for a Coq literal: decided by the oracle alone
+        kind = "scale-" + kind
+        faults = faults[:5]
+    res = {"ints": ints, "oracle": msg, "nontrivial": nt, "kind": kind,
            "observed": dict(obs, faults=faults, label=label, base=base)}
     return res
 
@@ -850,7 +871,10 @@ def inject(base, injs, rng):
 
 def gen_cases(ctx):
     rng = ctx.rng
-    cases = []
+    import c20_scale
+
+    # the deterministic family at scale comes first (it draws nothing from rng: the cases below are those of before)
+    cases = c20_scale.gen_scale_cases()
     rounds = 1 if ctx.quick else 3
     for _ in range(rounds):
         for rev in (False, True):
